@@ -274,6 +274,8 @@ pub struct Fail {
     pub reason: String,
     /// name of the declaration the failing node textually belongs to (None = the queried type)
     pub in_decl: Option<String>,
+    /// declarations owning the failing nodes of the *other* union arms that were tried on the way
+    pub also: Vec<String>,
 }
 
 #[derive(Clone, Debug, PartialEq)]
@@ -452,10 +454,13 @@ impl Env {
             Ty::Union(ts) if !ts.is_empty() => {
                 let mut best: Option<Fail> = None;
                 let mut inconclusive = None;
+                let mut others: Vec<String> = vec![];
                 for t in ts {
                     match self.member_in(v, t, path, decl, refs) {
                         Ok(()) => return Ok(()),
                         Err(MemberErr::Fail(f)) => {
+                            others.extend(f.in_decl.iter().cloned());
+                            others.extend(f.also.iter().cloned());
                             if best.as_ref().map_or(true, |b| f.path.len() > b.path.len()) {
                                 best = Some(f);
                             }
@@ -467,6 +472,9 @@ impl Env {
                     return Err(MemberErr::Inconclusive(s));
                 }
                 let mut f = best.unwrap();
+                others.sort();
+                others.dedup();
+                f.also = others;
                 if ts.len() > 1 && f.path.len() == path.len() {
                     f.reason = format!("matches none of {} union arms (e.g. {})", ts.len(), f.reason);
                 }
@@ -480,14 +488,18 @@ impl Env {
                 path: path.clone(),
                 reason: "type is uninhabited (never / contradictory intersection)".into(),
                 in_decl: decl.clone(),
+                also: vec![],
             }));
         }
         let mut best: Option<Fail> = None;
         let mut inconclusive: Option<String> = None;
+        let mut others: Vec<String> = vec![];
         for s in &alts {
             match self.member_shape(v, s, path, decl) {
                 Ok(()) => return Ok(()),
                 Err(MemberErr::Fail(f)) => {
+                    others.extend(f.in_decl.iter().cloned());
+                    others.extend(f.also.iter().cloned());
                     let better = match &best {
                         None => true,
                         Some(b) => f.path.len() > b.path.len(),
@@ -503,6 +515,9 @@ impl Env {
             return Err(MemberErr::Inconclusive(s));
         }
         let mut f = best.unwrap();
+        others.sort();
+        others.dedup();
+        f.also = others;
         if alts.len() > 1 && f.path.len() == path.len() {
             f.reason = format!("matches none of {} alternatives (e.g. {})", alts.len(), f.reason);
         }
@@ -521,6 +536,7 @@ impl Env {
                 path: path.clone(),
                 reason,
                 in_decl: decl.clone(),
+                also: vec![],
             }))
         };
         match s {
